@@ -276,11 +276,23 @@ Definition class_enabled (pr : peer_state) (k : akind) : bool :=
   | KClass AAudio => t_audio pr
   end.
 
+(* downloads of class c requested and not yet applied (SyncAssetTransfer::pending_downloads): each id
+   once, with the owner named by the LATEST request *)
+Definition pending_of (pr : peer_state) (c : aclass) : list (uuid * peer) :=
+  let l := omap (fun x : aclass * uuid * peer =>
+                   if kind_num (KClass x.1.1) =? kind_num (KClass c) then Some (x.1.2, x.2) else None) (d_pending pr) in
+  foldr (fun '(a, o) acc => if existsb (fun y : uuid * peer => fst y =? a) acc then acc else (a, o) :: acc) [] l.
+
+(* check_meshes / check_images / check_audios (since the repair of S26, 8b1d5d0): an asset this peer is
+   still downloading is announced with the owner it was told to fetch it from — also when it holds no
+   copy yet — and is not served; every other asset of the class is served and announced as its own *)
 Definition serve_all (pr : peer_state) (c : aclass) : peer_state * list msg :=
   if class_enabled pr (KClass c) then
-    let l := assets_of_kind pr (KClass c) in
+    let pend := pending_of pr c in
+    let l := filter (fun x : uuid * N => negb (existsb (fun y : uuid * peer => fst y =? fst x) pend))
+                    (assets_of_kind pr (KClass c)) in
     (pr <| h_cache := foldl (fun h '(a, v) => <[akey (KClass c) a := v]> h) (h_cache pr) l |>,
-     (fun '(a, _) => MAsset c a (p_id pr)) <$> l)
+     ((fun '(a, _) => MAsset c a (p_id pr)) <$> l) ++ ((fun '(a, o) => MAsset c a o) <$> pend))
   else (pr, []).
 
 Definition snapshot_material_msgs (pr : peer_state) : list msg :=
@@ -509,11 +521,22 @@ Definition react_on_changed_assets (server : bool) (k : akind) (pr : peer_state)
 
 (* process_mesh_assets / process_image_assets / process_audio_assets: downloads that completed
    (oracle: class, id, content) are inserted into Assets<T> with a handle token *)
-Definition process_assets (pr : peer_state) (c : aclass) (done : list (aclass * uuid * N)) : peer_state :=
-  foldl (fun pr '(c', a, v) =>
+Fixpoint remove1_pending (c : aclass) (a : uuid) (l : list (aclass * uuid * peer)) : list (aclass * uuid * peer) :=
+  match l with
+  | [] => []
+  | x :: l => if (kind_num (KClass x.1.1) =? kind_num (KClass c)) && (x.1.2 =? a) then l else x :: remove1_pending c a l
+  end.
+
+(* [last] = no other download of the id is under way when this one is applied (oracle): the request is
+   forgotten; otherwise one request of the id is *)
+Definition process_assets (pr : peer_state) (c : aclass) (done : list (aclass * uuid * N * bool)) : peer_state :=
+  foldl (fun pr '(c', a, v, last) =>
            if kind_num (KClass c') =? kind_num (KClass c) then
              let pr := pr <| t_htok := a :: t_htok pr |> in
-             let pr := pr <| d_pending := filter (fun x : aclass * uuid * peer => negb ((kind_num (KClass x.1.1) =? kind_num (KClass c)) && (x.1.2 =? a))) (d_pending pr) |> in
+             let pr := pr <| d_pending :=
+                          if (last : bool)
+                          then filter (fun x : aclass * uuid * peer => negb ((kind_num (KClass x.1.1) =? kind_num (KClass c)) && (x.1.2 =? a))) (d_pending pr)
+                          else remove1_pending c a (d_pending pr) |> in
              insert_asset pr (KClass c) a v
            else pr) pr done.
 
@@ -690,7 +713,7 @@ Record frame_oracle := {
   fo_status : option renet_status;       (* client: RenetClient status after this frame's renet update *)
   fo_srv_poll : list peer;               (* host poll: sender of each message received, in order *)
   fo_cli_poll : nat;                     (* client poll: number of messages received *)
-  fo_downloads : list (aclass * uuid * N);   (* downloads whose payload the process_* systems apply in this frame *)
+  fo_downloads : list (aclass * uuid * N * bool);   (* downloads whose payload the process_* systems apply in this frame; the flag: no other download of the id is under way *)
 }.
 
 Definition run_body (pr : peer_state) (s : sysid) (o : frame_oracle) : peer_state :=
